@@ -262,7 +262,7 @@ def rule_chain(chk, fb):
     rid = chk.rule(
         "C08.b.chain",
         "edited/own sheet names keep their slots along Worksheet -> Cells -> Cell -> CellValue -> CellFormula -> kernel: own = the sheet's title, edited = the sheet_name argument; the kernel receives (edited, own) in its (worksheet_name, self_worksheet_name) parameters",
-        floor=10,
+        floor=8,
     )
     kernels, hr = formula_kernels(fb)
     two = C07.impl_methods(fb, T_2SHEET)
@@ -279,28 +279,29 @@ def rule_chain(chk, fb):
                 ok = any(x[0] == "field" and x[2] == "title" for x in a_own) and ("arg", 2) in a_ed and not any(x == ("arg", 2) for x in fl.atoms(t["args"][1], through_calls=False))
                 chk.touch(d)
                 chk.ob(rid, "Worksheet.%s:entry" % role, ok, where="%s:%s" % (b["file"], t["ln"]), detail="own-sheet slot derives from self.title and edited-sheet slot from the sheet_name parameter: %s" % ok)
+    from mirq import closure_captures, parent_args
+
     for adt, meths in sorted(two.items()):
         for role, d in sorted(meths.items()):
+            caps = closure_captures(fb, d)
+            n = 0
             for bd in C07.bodies_with_closures(fb, d):
                 b = fb.mir[bd]
-                if bd != d:
-                    continue
                 fl = Flow(fb, b)
-                n = 0
                 for bi, t in fl.calls():
                     f = t.get("fn", "")
                     if "with_2sheet" in f and len(t["args"]) == 7:
-                        got = [sorted(x[1] for x in fl.atoms(t["args"][i], through_calls=False) if x[0] == "arg") for i in (1, 2)]
+                        got = [parent_args(fb, d, bd, fl, t["args"][i], caps) for i in (1, 2)]
                         ok = got == [[2], [3]]
                         chk.ob(rid, "%s.%s:pass#%d" % (adt.split("::")[-1], role, n), ok, where="%s:%s" % (b["file"], t["ln"]), detail="(own, edited) passed on from parameters %s, expected [[2],[3]]" % got)
                         n += 1
                     elif f in kernels:
-                        got = [sorted(x[1] for x in fl.atoms(t["args"][i], through_calls=False) if x[0] == "arg") for i in (5, 6)]
+                        got = [parent_args(fb, d, bd, fl, t["args"][i], caps) for i in (5, 6)]
                         ok = got == [[3], [2]] and kernels[f] == role
                         chk.ob(rid, "%s.%s:kernel#%d" % (adt.split("::")[-1], role, n), ok, where="%s:%s" % (b["file"], t["ln"]),
                                detail="kernel %s (role %s) receives (worksheet_name, self_worksheet_name) from parameters %s, expected [[3],[2]]" % (f.split("::")[-1], kernels[f], got))
                         n += 1
-                chk.touch(d)
+            chk.touch(d)
 
 
 def rule_guard_sources(chk, fb):
